@@ -7,6 +7,7 @@ import (
 	"strings"
 	"unicode"
 
+	"github.com/ucan-wg/go-ucan/pkg/policy"
 	"github.com/ucan-wg/go-ucan/pkg/policy/selector"
 )
 
@@ -76,6 +77,22 @@ func goSelect(text, node string) (out string) {
 		return "ok " + dumpNode(res)
 	}
 	r1 := once()
+	// the same selector inside a policy statement: the statement [==, selector, <the value it selects>] holds for the
+	// policy as built and for the policy as it reads back from its IPLD form (nothing of the selector is lost on the way)
+	if res, err := sel.Select(n); err == nil && res != nil && res.Kind() != datamodel.Kind_Float {
+		if pol, err := policy.Construct(policy.Equal(text, res)); err == nil {
+			m1, _ := pol.Match(n)
+			if nd, err := pol.ToIPLD(); err == nil {
+				if p2, err := policy.FromIPLD(nd); err == nil {
+					if m2, _ := p2.Match(n); m1 != m2 {
+						return "roundtrip: [==, selector, selected value] is " + bstr(m1) + " as built and " + bstr(m2) + " as decoded"
+					}
+				} else {
+					return "roundtrip: a policy built with this selector does not decode"
+				}
+			}
+		}
+	}
 	// history: a second parse of the same text is first applied to values of other kinds and lengths, and only
 	// then to this value: a parsed selector is not changed by being used
 	if sel2, err := selector.Parse(text); err == nil {
@@ -167,7 +184,7 @@ func evalSelector(line string) (string, string) {
 }
 
 var selSegShapes = []string{
-	".a", ".a?", ".zz", ".zz?", `["a"]`, `[""]`, `[""]?`, `["b"]?`,
+	".a", ".a?", ".zz", ".zz?", `["a"]`, `[""]`, `[""]?`, `["b"]?`, `["a??"]`,
 	"[0]", "[0]?", "[-1]", "[5]", "[5]?", "[-7]?",
 	"[1:]", "[:-1]", "[-2:5]", "[3:1]", "[:2]?", "[0:1]",
 	"[]", "[]?", ".", ".b",
@@ -176,7 +193,7 @@ var selSegShapes = []string{
 var selValues = []string{
 	"n", "T", "i7", "d3ff8000000000000", "s68c3a96c6c6f", "s", "s61ff62", "b010203", "b",
 	"l(i1,s78,l(i2,i3))", "l()", "m(61:m(61:i1,62:l(i1,i2)),:i9,62:l(i10,i20,i30))", "m()",
-	"l(m(61:i1),m(61:i2,62:i3))", "m(7a7a:n,61:l())", "m(61:s616263,62:b0a0b0c)", "l(n,n)", "m(61:n)",
+	"l(m(61:i1),m(61:i2,62:i3))", "m(7a7a:n,61:l())", "m(613f3f:i1,613f:i2,61:i3)", "m(61:s616263,62:b0a0b0c)", "l(n,n)", "m(61:n)",
 	"sff", "se282acc0af41", // invalid UTF-8 only; a valid 3-byte rune followed by an overlong form and a letter
 	"s" + strings.Repeat("c3a9", 24),                  // 24 two-byte characters: 48 bytes, byte length ≠ character count, beyond any small buffer
 	"s61" + strings.Repeat("e282ac", 15) + "f09f9880", // 1-, 3- and 4-byte characters mixed, 50 bytes
